@@ -164,7 +164,7 @@ def run_shard(shard, ctx):
             text = mk(sync=["0 = TS 4"] + ["%d = B %d" % tn for tn in tempo])
             be = impl.parse(text).sync_track.bpm_events
             tks = [t for t, _ in tempo]
-            for tick in range(0, tks[-1] + 4):
+            for tick in list(range(0, tks[-1] + 4)) + [tks[-1] + 10**6, tks[-1] + 2**32]:
                 gov = max(i for i, t in enumerate(tks) if t <= tick)
                 try:
                     ref = be.timestamp_at_tick(tick)
